@@ -52,6 +52,7 @@ pub struct EnvCensus {
     pub overfull_batches: u64,
     pub crowded_batches: u64,
     pub large_volume_sessions: u64,
+    pub resume_sessions: u64,
     pub same_batch_targets: u64,
     pub multi_instruction_orders: u64,
     pub trades: u64,
@@ -80,7 +81,7 @@ impl EnvCensus {
         macro_rules! add { ($($f:ident),*) => { $( self.$f += o.$f; )* } }
         add!(
             sessions, steps, instructions, new_orders, cancels, modifies, empty_batches, full_batches,
-            overfull_batches, crowded_batches, large_volume_sessions, same_batch_targets, multi_instruction_orders, trades, schedules_by_hint,
+            overfull_batches, crowded_batches, large_volume_sessions, resume_sessions, same_batch_targets, multi_instruction_orders, trades, schedules_by_hint,
             schedules_by_search, search_candidates, submissions_checked, rejected_submissions,
             rows_compared, asymmetric_rows, deep_level_rows, toggles, toggles_after_submission, steps_while_disabled, market_rejected,
             trades_after_reenable, cross_asset_id_collisions, drains, tie_like_stamps, multi_asset_sessions
@@ -136,6 +137,13 @@ pub fn session<E: SimEnv>(cfg: &SessionCfg, cs: &mut EnvCensus, out: &mut Sessio
     let t0 = if rng.chance(0.3) { rng.below(1 << 40) } else if rng.chance(0.2) { 0 } else { rng.below(100) };
     // large-volume sessions keep trading enabled: their takers are sized to trade completely, resting them would leave the valid range
     let mut trading = gen.large || !rng.chance(if on(E_FLAG) { 0.3 } else { 0.1 });
+    // resume regime (one ordinary session in twenty): the session starts halted, two steps of orders rest crossed, trading
+    // is switched on, and from then on steps carry one or two instructions sized to fill exactly (EnvGenCfg::exact_batch)
+    let resume = !gen.large && !overfull && rng.chance(0.05);
+    if resume {
+        trading = false;
+        cs.resume_sessions += 1;
+    }
     let mut env = E::create(t0, &gen.ticks, step_size, trading);
     let mut shadow: Shadow<E::Book> = Shadow::new(t0, &gen.ticks, trading);
     let mut rshadow = RefShadow::new(t0, &gen.ticks, trading);
@@ -174,7 +182,7 @@ pub fn session<E: SimEnv>(cfg: &SessionCfg, cs: &mut EnvCensus, out: &mut Sessio
         }
         cs.steps += 1;
         // ---- between steps: maybe toggle trading ----
-        if !gen.large && rng.chance(cfg.toggle_rate) {
+        if if resume { step == 2 } else { !gen.large && rng.chance(cfg.toggle_rate) } {
             let before = if on(E_FLAG) || on(E_INVIS) { Some(env.obs()) } else { None };
             trading = !trading;
             env.set_trading(trading);
@@ -233,7 +241,8 @@ pub fn session<E: SimEnv>(cfg: &SessionCfg, cs: &mut EnvCensus, out: &mut Sessio
             }
             }
         };
-        let mut batch = gen.batch(&mut rng, &env, n);
+        let n_exact = (1 + (rng.below(3) / 2) as usize).min(step_size as usize); // never more instructions than the step has time units
+        let mut batch = if resume && step >= 2 { gen.exact_batch(&mut rng, &env, n_exact) } else { gen.batch(&mut rng, &env, n) };
         if gen.large && std::env::var("BVMON_TRACE").is_ok() {
             for a in 0..assets {
                 let v = env.book(a).views();
@@ -568,10 +577,12 @@ pub fn session<E: SimEnv>(cfg: &SessionCfg, cs: &mut EnvCensus, out: &mut Sessio
                 o.ask_price.push(v.bid_ask.1);
                 o.bid_vol.push(v.bid_vol);
                 o.ask_vol.push(v.ask_vol);
-                o.touch_bid_vol.push(v.bid_levels[0].0);
-                o.touch_ask_vol.push(v.ask_levels[0].0);
-                o.touch_bid_n.push(v.bid_levels[0].1);
-                o.touch_ask_n.push(v.ask_levels[0].1);
+                if E::LEVELS > 0 {
+                    o.touch_bid_vol.push(v.bid_levels[0].0);
+                    o.touch_ask_vol.push(v.ask_levels[0].0);
+                    o.touch_bid_n.push(v.bid_levels[0].1);
+                    o.touch_ask_n.push(v.ask_levels[0].1);
+                }
                 for l in 0..E::LEVELS {
                     o.lvl_bid_vol[l].push(v.bid_levels[l].0);
                     o.lvl_ask_vol[l].push(v.ask_levels[l].0);
@@ -587,7 +598,7 @@ pub fn session<E: SimEnv>(cfg: &SessionCfg, cs: &mut EnvCensus, out: &mut Sessio
                 o.hist_ask_vol = o.ask_vol.clone();
                 let got = env.series(a);
                 cs.rows_compared += 1;
-                if v.bid_vol != v.ask_vol && v.bid_levels[0] != v.ask_levels[0] {
+                if v.bid_vol != v.ask_vol && v.bid_best != v.ask_best {
                     cs.asymmetric_rows += 1;
                     let mut h = Fnv::new();
                     h.bytes(format!("{:?}", v).as_bytes());
